@@ -3,8 +3,11 @@
 package main
 
 import (
+	"crypto/tls"
+	"encoding/binary"
 	"encoding/json"
 	"fmt"
+	"io"
 	"math/rand"
 	"net"
 	"net/netip"
@@ -952,7 +955,7 @@ func modeC15Live() {
 		upstreams: map[string]string{"u1": "udp"},
 		rules:     []ruleSpec{{Forward: "u1"}},
 		limiter:   lim,
-		clients:   []string{"127.0.1.1", "127.0.2.1", "127.0.3.1"},
+		clients:   []string{"127.0.1.1", "127.0.2.1", "127.0.3.1", "127.0.4.1", "127.0.5.1"},
 	})
 	if err != nil {
 		panic(err)
@@ -986,6 +989,46 @@ func modeC15Live() {
 			}
 		})
 		time.Sleep(300 * time.Millisecond)
+	}
+	// a connection that sat idle for a while asks a query just after its subnet's bucket was emptied by others,
+	// and more queries follow: whatever time-stamp the listener hands to the limiter, the subnet's budget holds
+	for _, lst := range []string{"tcp", "tls"} {
+		src := map[string]string{"tcp": "127.0.4.1", "tls": "127.0.5.1"}[lst]
+		d := net.Dialer{LocalAddr: &net.TCPAddr{IP: net.ParseIP(src)}, Timeout: 2 * time.Second}
+		pc, err := d.Dial("tcp", fmt.Sprintf("127.0.0.1:%d", in.ports[lst]))
+		if err != nil {
+			continue
+		}
+		var c net.Conn = pc
+		if lst == "tls" {
+			tc := tls.Client(pc, &tls.Config{InsecureSkipVerify: true})
+			if tc.Handshake() != nil {
+				pc.Close()
+				continue
+			}
+			c = tc
+		}
+		time.Sleep(1700 * time.Millisecond) // parked
+		flood := func() {
+			par(4, func(w int) {
+				for k := 0; k < 12; k++ {
+					in.sendMay("udp", src, mkq(uniq()+".r0t60d0.parked.test."), 2*time.Second)
+				}
+			})
+		}
+		// others of the subnet use up most of the bucket (a few tokens are left: the parked query is admitted) ...
+		for k := 0; k < 5; k++ {
+			in.sendMay("udp", src, mkq(uniq()+".r0t60d0.parked.test."), 2*time.Second)
+		}
+		w := mkq(uniq() + ".r0t60d0.parked.test.").wire()
+		f := make([]byte, 2+len(w))
+		binary.BigEndian.PutUint16(f, uint16(len(w)))
+		copy(f[2:], w)
+		c.Write(f)
+		c.SetReadDeadline(time.Now().Add(time.Second))
+		io.ReadFull(c, make([]byte, 2))
+		flood() // ... and go on asking
+		c.Close()
 	}
 	// a third subnet opens QUIC / TLS connections while A's connection budget is exhausted
 	in.send("quic", "127.0.3.1", mkq(uniq()+".r0t60d0.third.test."), 3*time.Second, nil)
